@@ -339,7 +339,11 @@ pub fn apply_real<K: EnrKey>(
 }
 
 /// Run the real builder.
-pub fn build_real<K: EnrKey>(calls: &[BCall], signer: &K) -> Result<Result<Enr<K>, ErrKind>, ()> {
+pub fn build_real<K: EnrKey>(
+    calls: &[BCall],
+    signer: &K,
+    first: Option<&K>,
+) -> Result<Result<Enr<K>, ErrKind>, ()> {
     guard("Builder::build", || {
         let mut b = Enr::<K>::builder();
         for c in calls {
@@ -404,6 +408,10 @@ pub fn build_real<K: EnrKey>(calls: &[BCall], signer: &K) -> Result<Result<Enr<K
                     b.client_info(name.clone(), version.clone(), build.clone());
                 }
             }
+        }
+        // a builder may be used more than once: build with another key first, keep the builder
+        if let Some(f) = first {
+            let _ = b.build(f);
         }
         b.build(signer).map_err(|e| ErrKind::of(&e))
     })
@@ -724,6 +732,9 @@ pub struct BuildPred {
     pub next: Model,
     pub causes: BTreeSet<ErrKind>,
     pub judged: bool,
+    /// the builder was handed an `id` / own key entry that it overwrites: it may refuse the call,
+    /// but if it returns Ok the pairs must be the model's
+    pub judged_ok_only: bool,
     pub why_unjudged: &'static str,
     pub size: usize,
     /// result within 8 bytes of the limit: the builder may refuse or not
@@ -779,13 +790,15 @@ pub fn predict_build(calls: &[BCall], signer: &SignerInfo) -> BuildPred {
     }
     let mut causes = BTreeSet::new();
     let mut judged = true;
+    let mut judged_ok_only = false;
     let mut why = "";
     let signer_entry = signer.pk_kind.entry_key().to_vec();
     for (k, v) in &pairs {
         if k == b"id" || k.as_slice() == signer_entry.as_slice() {
-            // overwritten by the builder; whether a bad value is refused first is not pinned down
+            // overwritten by the builder; whether a bad value is refused first is not pinned down,
+            // but an Ok result must carry id=v4 and the signer's key
             if !(value_causes(k, v).is_empty()) || is_pk_entry(k) {
-                judged = false;
+                judged_ok_only = true;
                 why = "builder given an id / own-scheme key entry that it overwrites";
             }
             continue;
@@ -828,6 +841,7 @@ pub fn predict_build(calls: &[BCall], signer: &SignerInfo) -> BuildPred {
         next,
         causes,
         judged,
+        judged_ok_only,
         why_unjudged: why,
         size,
         slack_zone,
